@@ -14,7 +14,7 @@ LEVEL = 'other'
 TECHNIQUE = 'static analysis: owner-qualified field coverage / preservation over the families of the comparison, substitution and rendering functions; equality-vs-structural comparison audit; length-before-zip dominance; operand-side symmetry of enum tests; quote-free renderer rules'
 CLAUSE = ('the template / equivalence comparisons read on both sides every non-lifetime field of every type payload (reference and '
           'pointer mutability, array length, fn-pointer abi/unsafety/arity, path identity), the substitution and canonicalisation '
-          'rebuild every payload from the like-named input field and keep the variant, and CanonicalType is built only by canonicalize().')
+          'rebuild every payload from the like-named input field and keep the variant, and CanonicalType is built only by canonicalize(). Wherever an equivalence function registers generic names, names of both operands are used as lookup keys.')
 TRUSTED = ['derived PartialEq compares all fields']
 
 CR = 'rustdoc_ir'
